@@ -564,7 +564,8 @@ def run(prop, tier, seed, replay=None, extra_cov=None):
         probe_stats = {"probes": PROBES[prop], "records": ptotal, "rejected": len(pbad),
                        "rule": "scripted probes judged by TraceStale.tla: staleprobe = second request 600 s + d ns after "
                                "the first (configured RTO iff d > 0); tinyprobe = first sample of 1 ns - 1 us, then the RTO "
-                               "of the third request against RFC 6298 in nanoseconds; timerprobe = a timer call d ns from a slot boundary or "
+                               "of the third request against RFC 6298 in nanoseconds, and late = a never-retransmitted request answered "
+                               "590 s - 1000 s after it was sent is a sample like any other (RTO of the next request in microseconds); timerprobe = a timer call d ns from a slot boundary or "
                                "the deadline fires iff d >= 0; eventsprobe = events left uncollected "
                                "before a refused request / rejected buffer / idle timer call are still there afterwards"}
         total_lines += ptotal
